@@ -25,12 +25,22 @@ HIST_T = ('hist', ['-n', 20000, '-scans', 12])
 HIST_S = ('hist', ['-n', 3000, '-scans', 12])
 
 
-def hist(prop, focus=None, q=400, t=20000, s=1500):
+def hist(prop, focus=None, q=400, t=20000, s=1500, extra=()):
+    """extra: further focused history streams, (focus, quick n, thorough n, search n)."""
     f = ['-focus', focus] if focus else []
     corpus = [('scenario', ['-dir', '@ROOT/corpus/' + prop])]
-    return dict(quick=corpus + [('hist', ['-n', q, '-scans', 10] + f)],
-                thorough=corpus + [('hist', ['-n', t, '-scans', 12] + f)],
-                search=[('hist', ['-n', s, '-scans', 12] + f)])
+    d = dict(quick=corpus + [('hist', ['-n', q, '-scans', 10] + f)],
+             thorough=corpus + [('hist', ['-n', t, '-scans', 12] + f)],
+             search=[('hist', ['-n', s, '-scans', 12] + f)])
+    for (fo, qn, tn, sn) in extra:
+        d['quick'].append(('hist', ['-n', qn, '-scans', 10, '-focus', fo]))
+        d['thorough'].append(('hist', ['-n', tn, '-scans', 12, '-focus', fo]))
+        if sn:
+            d['search'].append(('hist', ['-n', sn, '-scans', 12, '-focus', fo]))
+    return d
+
+
+BIG = ('big', 24, 600, 60)
 
 
 HOOK_COMMITS = ['8b60f71', 'c4143bc']
@@ -98,10 +108,10 @@ def c16_safe_monitor(case_line, result):
 PROPS = {
     'C01': dict(level='proof', module='EscProofs.P.C01',
                 streams=dict(quick=[('scenario', ['-dir', '@ROOT/corpus/C01']), ('hist', ['-n', 400, '-scans', 10]), ('hist', ['-n', 200, '-scans', 10, '-focus', 'down']),
-                                    ('hist', ['-n', 200, '-scans', 10, '-focus', 'annot']), ('hist', ['-n', 150, '-scans', 10, '-focus', 'churn'])],
-                             thorough=[('scenario', ['-dir', '@ROOT/corpus/C01']), ('hist', ['-n', 20000, '-scans', 12]), ('hist', ['-n', 8000, '-scans', 12, '-focus', 'down']),
+                                    ('hist', ['-n', 200, '-scans', 10, '-focus', 'annot']), ('hist', ['-n', 150, '-scans', 10, '-focus', 'churn']), ('hist', ['-n', 24, '-scans', 10, '-focus', 'big'])],
+                             thorough=[('scenario', ['-dir', '@ROOT/corpus/C01']), ('hist', ['-n', 600, '-scans', 12, '-focus', 'big']), ('hist', ['-n', 20000, '-scans', 12]), ('hist', ['-n', 8000, '-scans', 12, '-focus', 'down']),
                                        ('hist', ['-n', 8000, '-scans', 12, '-focus', 'annot']), ('hist', ['-n', 6000, '-scans', 12, '-focus', 'churn'])],
-                             search=[('hist', ['-n', 1500, '-scans', 12]), ('hist', ['-n', 800, '-scans', 12, '-focus', 'down']), ('hist', ['-n', 800, '-scans', 12, '-focus', 'annot'])]),
+                             search=[('hist', ['-n', 1500, '-scans', 12]), ('hist', ['-n', 800, '-scans', 12, '-focus', 'down']), ('hist', ['-n', 800, '-scans', 12, '-focus', 'annot']), ('hist', ['-n', 60, '-scans', 12, '-focus', 'big'])]),
                 technique='Lean 4 theorem over an executable model (journal soundness by induction over node lists, lifted to histories) + differential correspondence and runtime monitor on the real code',
                 level_text='Theorems C01_scan / C01_history (in full since the repair of finding T1, fix 972e64a): for every configuration with non-negative grace periods, '
                            'controller state, view with ANY taint values, clocks, ordering and environment responses, along every history with restarts, each terminate/delete call of the '
@@ -203,7 +213,7 @@ PROPS = {
                 level_text='C08_oldest / C08_history: for every set of creation times (ties, identical, zero), list order, sort tie-breaking, taint count and failing GET/UPDATE, no untainted node that was not attempted is strictly older than a tainted one '
                            '(unique node names assumed). The sort itself (sort.Sort on the repo\'s Less) is not modelled: the order it produced is passed as a hint and checked, on every case, to be a sorted permutation. Tie: hist on taint-adding updates and GET order + monitor.',
                 level_note=LEVEL_NOTE),
-    'C09': dict(level='proof', module='EscProofs.P.C09', streams=hist('C09'),
+    'C09': dict(level='proof', module='EscProofs.P.C09', streams=hist('C09', extra=[('churn', 150, 6000, 600), ('down', 150, 6000, 600), ('faults', 150, 6000, 0), BIG]),
                 aspects=['hist:gets', 'hist:updates', 'hist:removals'], monitors=['C09'],
                 theorems=['Esc.P.C09_untouched', 'Esc.P.C09_history', 'Esc.P.C09_uncounted', 'Esc.P.C09_cache_uncounted', 'Esc.P.C09_lists_uncounted', 'Esc.P.C09_alloc_irrelevant'],
                 technique='Lean 4 theorem (journal anatomy: every node-targeting call names an uncordoned node of the view) + differential correspondence and runtime monitor',
@@ -211,7 +221,7 @@ PROPS = {
                            'C09_uncounted: a cordoned node is in none of the working lists (so not in the capacity sum); C09_alloc_irrelevant: outside dry mode the complete result of a group scan (decision, every call, new controller and provider state) is the same whatever allocatable CPU/memory the cordoned nodes report. Tie: hist correspondence on node-targeting calls + monitor. '
                            'C09_cache_uncounted / C09_lists_uncounted: the remembered node size and the working lists are the same whether or not cordoned nodes are listed (defect F8 repaired in 36808c6; regression scenario in corpus/C09).',
                 level_note=LEVEL_NOTE),
-    'C10': dict(level='proof', module='EscProofs.P.C10', streams=hist('C10', focus='annot'),
+    'C10': dict(level='proof', module='EscProofs.P.C10', streams=hist('C10', focus='annot', extra=[('churn', 150, 6000, 600), ('up', 150, 6000, 600), BIG]),
                 aspects=['hist:removals'], monitors=['C10'],
                 theorems=['Esc.P.C10_protected', 'Esc.P.C10_history', 'Esc.P.C10_empty_value_unprotected', 'Esc.P.C10_still_counted',
                           'Esc.P.C10_capacity_unchanged', 'Esc.P.C10_no_holdback'],
